@@ -35,6 +35,7 @@ class Scenario:
     consume_tmo_ms: list = field(default_factory=lambda: [5, 1200, 2500])
     schedule: bool = False               # fake servers: seeded random order of pending round trips
     fifo_only: bool = False              # only undelayed, no ttl: pure ordering histories
+    script: list | None = None           # directed history: the operations in this order instead of seeded choices
 
 
 def make_inmem():
@@ -116,7 +117,7 @@ async def run_history(loop, sc: Scenario, make=None, projector=None, latency_us=
             kw["ttl"] = timedelta(milliseconds=ttl_ms)
         return Parameters(timestamp=now, **kw)
 
-    for n in range(sc.nops):
+    for n in range(len(sc.script) if sc.script else sc.nops):
         choices = []
         w = sc.weights
         if nid < sc.max_ids:
@@ -124,9 +125,15 @@ async def run_history(loop, sc: Scenario, make=None, projector=None, latency_us=
         for ci, c in enumerate(cons):
             if not c["on"]:
                 choices += [("start", ci)] * w.get("start", 2)
+            elif c.get("bg") is not None:
+                # a consume() call is waiting in the background: the client goes on with other things (or collects it)
+                choices += [("join", ci)] * w.get("join", 0)
             else:
                 choices += [("consume", ci)] * w.get("consume", 4)
+                choices += [("consume_bg", ci)] * w.get("consume_bg", 0)
                 choices += [("finish", ci)] * w.get("finish", 1)
+            if c["on"]:
+                choices += [("unpause", ci) if c.get("paused") else ("pause", ci)] * w.get("pause", 0)
             for hi in range(len(c["held"])):
                 for o in ("ack", "nack", "reject", "requeue"):
                     if o == "nack" and c["cat"] != "NORMAL" and not w.get("nack_any"):
@@ -140,6 +147,11 @@ async def run_history(loop, sc: Scenario, make=None, projector=None, latency_us=
             if not any(c["q"] == q and (c["on"] or c["held"]) for c in cons):
                 choices += [("qdelete", q)] * w.get("delete", 0)
         ch = rng.choice(choices)
+        if sc.script:
+            ch = sc.script[n]
+            ch = tuple(ch) if isinstance(ch, list) else ch
+            if ch != "enq" and ch[0] != "sleep" and ch not in choices:
+                continue                   # (not applicable in the client's present state, e.g. after an interrupted call)
         stats["ops"] += 1
         if ch == "enq":
             nid += 1
@@ -152,8 +164,8 @@ async def run_history(loop, sc: Scenario, make=None, projector=None, latency_us=
             payload = f'{{"n":{nid}}}'
             oplog.append(("enq", key.id_, topic, delay, ttl))
             await do(n, lambda: broker.enqueue(key, payload, params))
-        elif ch == "sleep":
-            ms = rng.choice(sc.sleeps_ms)
+        elif ch == "sleep" or ch[0] == "sleep":
+            ms = rng.choice(sc.sleeps_ms) if ch == "sleep" else ch[1]
             oplog.append(("sleep", ms))
             await asyncio.sleep(ms / 1000)
         elif ch[0] in ("qflush", "qdeclare", "qdelete"):
@@ -184,15 +196,31 @@ async def run_history(loop, sc: Scenario, make=None, projector=None, latency_us=
             c["held"] = []
             # a finished consumer object is not restarted; take a fresh one (like Queue.get_messages)
             c["obj"] = broker.get_consumer(c["q"], sc.consumers[ch[1]][1], None, MessageCategory[c["cat"]])
-        elif ch[0] == "consume":
+        elif ch[0] in ("pause", "unpause"):
             c = cons[ch[1]]
-            tmo = rng.choice(sc.consume_tmo_ms)
-            oplog.append(("consume", ch[1], tmo))
+            oplog.append(ch)
+            r = await do(n, getattr(c["obj"], ch[0]))
+            if r != "CANCELLED":             # (an interrupted pause may not have taken effect: the client does not unpause it)
+                c["paused"] = ch[0] == "pause"
+        elif ch[0] in ("consume", "consume_bg", "join"):
+            c = cons[ch[1]]
+            if ch[0] == "join":
+                oplog.append(ch)
+                t = c.pop("bg")
+                c["bg"] = None
+            else:
+                tmo = rng.choice(sc.consume_tmo_ms) if ch[0] == "consume" else 8000
+                oplog.append((ch[0], ch[1], tmo))
 
-            async def consume_with_timeout(obj=c["obj"], tmo=tmo):
-                return await asyncio.wait_for(obj.consume(), tmo / 1000)
+                async def consume_with_timeout(obj=c["obj"], tmo=tmo):
+                    return await asyncio.wait_for(obj.consume(), tmo / 1000)
+                t = asyncio.ensure_future(do(n, consume_with_timeout))
+                if ch[0] == "consume_bg":
+                    c["bg"] = t
+                    await asyncio.sleep(0.002)      # let it reach its polling loop
+                    continue
             try:
-                r = await do(n, consume_with_timeout)
+                r = await t
             except asyncio.TimeoutError:
                 r = None
             except RuntimeError:          # "Consumer wasn't started." (its start had been interrupted)
@@ -221,6 +249,19 @@ async def run_history(loop, sc: Scenario, make=None, projector=None, latency_us=
                 r = await do(n, lambda: getattr(broker, o)(key))
             if r == "CANCELLED":
                 # the client does not know whether the call took effect: it gives the message up
+                pass
+    for c in cons:          # nothing is left pending: paused consumers are released, waiting consume() calls collected
+        if c.get("paused") and c["on"]:
+            try:
+                await c["obj"].unpause()
+            except RuntimeError:
+                pass
+        if c.get("bg") is not None:
+            try:
+                r = await c["bg"]
+                if r is not None and r != "CANCELLED":
+                    stats["consumed"] += 1
+            except (asyncio.TimeoutError, RuntimeError):
                 pass
     await vloop.settle(5)
     rec.emit({"e": "time", "now": ("us", CLOCK.us)})
